@@ -35,7 +35,14 @@ Oracle (models/tdda_format_spec.py, independent of tdda; three-valued):
     verdict maps for the original dictionary, the file path, the
     re-serialised text (and, for discovered sets, the in-memory object);
     removing unknown kinds / '#' keys changes no verdict; removing null-valued
-    constraints changes no verdict of the remaining constraints.
+    constraints changes no verdict of the remaining constraints.  Where the
+    in-memory object route or the loaded route raises on a frame there is no
+    verdict to compare: unspecified (that is C01/C02's ground); the path and
+    dictionary routes, which share the loader, must agree on raising too.
+
+Signatures name the root cause: raises:<load|dump>:<Type>@<innermost tdda
+function>:<message>, text:<clause>:<feature>, fixpoint:<what changed>:<start
+feature>, content:<clause>:<kind>:<value class>, verdict:<routeA>!=<routeB>:...
 """
 import contextlib
 import datetime
@@ -45,9 +52,7 @@ import json
 import math
 import os
 import shutil
-import sys
 import tempfile
-import traceback
 
 from mc.engine import Check, Res
 from mc.models import tdda_format_spec as spec
@@ -231,7 +236,7 @@ PRECS = ['closed', 'open', 'fuzzy']
 PREC_GRAY = ['exact']
 
 
-def entry_forms(kind, v, tier_full=True):
+def entry_forms(kind, v):
     """the documented spellings of one constraint entry with value v"""
     yield v
     yield {'value': v}
@@ -771,9 +776,9 @@ class C09(Check):
                 for f2 in FAMILY_ORDER:
                     n1, n2 = len(FAMILIES[f1]), len(FAMILIES[f2])
                     for i1 in itertools.combinations_with_replacement(
-                            range(min(n1, 3)), 2):
+                            range(min(n1, 2)), 2):
                         for i2 in itertools.combinations_with_replacement(
-                                range(min(n2, 3)), 2):
+                                range(min(n2, 2)), 2):
                             yield {'k': 'disc',
                                    'cols': [['b c', f1, list(i1)],
                                             ['a', f2, list(i2)]],
@@ -982,8 +987,12 @@ class C09(Check):
                 # -- fixpoint on tdda-written texts
                 if written and Tsec is not None:
                     if s2 != Tsec:
-                        R.viol('fixpoint:%s:%s' % (self.diff_class(Tsec, s2),
-                                                   ctx.get('tag', '-')),
+                        dcls, dfield = self.diff_class(Tsec, s2)
+                        tag = ctx.get('tag', '-')
+                        if 'famof' in ctx:      # discovered: the family of
+                            tag = 'discovered-' + ctx['famof'].get(   # the
+                                dfield, tag)    # column that changed
+                        R.viol('fixpoint:%s:%s' % (dcls, tag),
                                'reload-rewrites-identical-fields-text',
                                {'op': op, 'depth': depth, 'before': Tsec[:500],
                                 'after': s2[:500]}, {'op': op, 'depth': depth})
@@ -1039,20 +1048,25 @@ class C09(Check):
 
     @staticmethod
     def diff_class(sec_a, sec_b):
-        """root-cause class of a difference between two fields sections"""
+        """(root-cause class of a difference between two fields sections,
+        name of the first field that differs or None)"""
         try:
             a = json.loads('{' + sec_a)['fields']
             b = json.loads('{' + sec_b)['fields']
         except ValueError:
-            return 'unparseable'
+            return 'unparseable', None
         if a == b:
             if list(a) != list(b):
-                return 'field-order'
-            return 'key-order-or-spelling'
+                return 'field-order', None
+            return 'key-order-or-spelling', None
         if set(a) != set(b):
-            return 'field-set'
+            return 'field-set', None
         out = []
+        first = None
         for f in a:
+            if first is None and (a[f] != b[f] or
+                                  json.dumps(a[f]) != json.dumps(b[f])):
+                first = f
             if set(a[f]) != set(b[f]):
                 out.append('kinds:' + ','.join(sorted(set(a[f]) ^ set(b[f]))))
                 continue
@@ -1062,7 +1076,7 @@ class C09(Check):
                     out.append('%s:%s->%s' % (
                         bk(k), value_class(a[f][k]).split('+')[0],
                         value_class(b[f][k]).split('+')[0]))
-        return ';'.join(sorted(set(out))[:3]) or 'other'
+        return ';'.join(sorted(set(out))[:3]) or 'other', first
 
     # ---- hand-written start -------------------------------------------
     def run_hand(self, R, case):
@@ -1207,7 +1221,9 @@ class C09(Check):
         if sigtail is None:
             tail = value_class(fc[k]).split('+')[0] if k in fc else '-'
         else:
-            tail = sigtail
+            # discovered start: name the family of the column concerned
+            tail = 'discovered-' + sigtail.get(
+                f, '+'.join(sorted(set(sigtail.values()))))
         sig = 'verdict:%s!=%s:%s:%s' % (na, nb, bk(k), tail)
         if roottag:
             # the document carries a feature that is a root cause of its own
@@ -1228,7 +1244,6 @@ class C09(Check):
                 data[name] = manycat_column(*idxs)
             else:
                 data[name] = build_column(fam, idxs)
-        n = max([len(c) for c in data.values()] + [0])
         df = pd.DataFrame(dict((k, c.reset_index(drop=True))
                                for k, c in data.items()))
         names = list(data)
@@ -1269,29 +1284,26 @@ class C09(Check):
                        for k in fc.constraints))))
         if parsed is None:
             return
-        fam = '+'.join(sorted(set('dttz' if f.startswith('dttz') else f
-                                  for (_, f, _) in case['cols'])))
+        famof = dict((n, 'dttz' if f.startswith('dttz') else f)
+                     for (n, f, _) in case['cols'])
+        fam = '+'.join(sorted(set(famof.values())))
         info = self.explore(R, T0, False, None, 'doc',
-                            {'values': vals, 'tag': 'discovered-' + fam})
-        if info['sections'] > 1 or s is None:
-            pass
-        # start text's own section must be the one re-written
-        # (explore compares every re-write with its input, depth 0 included)
+                            {'values': vals, 'tag': fam, 'famof': famof})
+        # (explore compares every re-write with its input, the start text
+        # included: a discovered set must be re-written identically at once)
         O = self.verdicts('object', C0, names[:2])
         B = self.verdicts('path', T0, names[:2])
         A = self.verdicts('dict', parsed, names[:2])
         k = len(O)
         R.ev(3 * k, checked=3 * k)
-        fam = '+'.join(sorted(set('dttz' if f.startswith('dttz') else f
-                                  for (_, f, _) in case['cols'])))
         if self.compare_routes(R, 'object', O, 'path', B, None, T0, None,
                                lenient_raises=True,
-                               sigtail='discovered-' + fam):
+                               sigtail=famof):
             self.compare_routes(R, 'object', O, 'dict', A, None, T0, None,
                                 lenient_raises=True,
-                                sigtail='discovered-' + fam)
+                                sigtail=famof)
         self.compare_routes(R, 'path', B, 'dict', A, None, T0, None,
-                            sigtail='discovered-' + fam)
+                            sigtail=famof)
         for cid, m in O:
             if isinstance(m, str):
                 R.out('verify:' + m)
